@@ -384,3 +384,23 @@ def run(ctx):
     ctx.compare("UnknownNode(rw, ro, deep) and create_from_cap(w, r, deep)", cases, impl, ctx.model(lines))
     run_histories(ctx, objs)
     ctx.sample({"cap": U.describe(objs[0]), "att": impl_att(objs[0])})
+
+
+def replay(ctx, obj):
+    """re-run one recorded case: a create_from_cap history on one NodeMaker, else the whole run"""
+    from common import unhx
+    from allmydata.nodemaker import NodeMaker
+    case = obj.get("case") or {}
+    if "history" not in case:
+        return run(ctx)
+    calls = [(None if w == "N" else unhx(w), None if r == "N" else unhx(r), bool(d)) for (w, r, d) in case["history"]]
+    nm = NodeMaker(_SB(), None, None, None, _Term(), {"k": 3, "n": 10}, None, None)
+    alive, outs = [], []
+    for i, (w, r, d) in enumerate(calls):
+        node = nm.create_from_cap(w, r, deep_immutable=d)
+        alive.append(node)
+        monitor_node(ctx, node, w, r, d, dict(case, step=i), "hist-")
+        outs.append(show_node(node))
+        ctx.case(("hist", i, w, r, d))
+    line = "hist " + " ".join("c:%d:%s:%s" % (d, opt(w), opt(r)) for (w, r, d) in calls)
+    ctx.compare("create_from_cap history (replay)", [case], [";".join(outs)], ctx.model([line]))
